@@ -864,7 +864,8 @@ func (t *txbGen) observe(w string) {
 		}
 		l.op("q-find", "find %s %s %d", w, from, 1+l.r.Int63n(tot+2))
 	}
-	if l.r.Intn(4) == 0 {
+	if l.r.Intn(4) == 0 && !t.reorged {
+		// (behind an undelivered reorganisation the first coins in hash order may be unresolvable)
 		l.op("q-estsize", "estsize %s %d %d", w, l.r.Intn(4), l.r.Intn(4))
 	}
 	if l.r.Intn(4) == 0 {
